@@ -401,24 +401,30 @@ func RunQuery(r QueryRun) (o *Outcome) {
 		ps.BeginOp(f, cancelFn)
 	}
 	clientDone := make(chan struct{})
+	var omu sync.Mutex // the canceller and the AfterFunc callback touch o next to this goroutine
 	if op.ClientCancelStep > 0 && r.Sim != nil {
 		r.Sim.Go("canceller", r.Client, func() {
 			defer close(clientDone)
 			r.Sim.HoldUntil(op.ClientCancelStep)
+			omu.Lock()
 			if o.ExecEnd != 0 {
+				omu.Unlock()
 				return
 			}
 			if o.CancelStep == 0 {
 				o.CancelStep = step()
 				o.ParkedAtCancel = r.Sim.ParkedSites()
 			}
+			omu.Unlock()
 			sched.Note("client-cancel")
 			func() {
 				// Cancel and Close are engine API calls made on the client's goroutine: a panic
 				// in them would take the embedding process down (C13)
 				defer func() {
 					if p := recover(); p != nil {
+						omu.Lock()
 						o.CancelPanic = fmt.Sprintf("%v | %s", p, trimStack(debug.Stack()))
+						omu.Unlock()
 					}
 				}()
 				if op.ClientClose {
@@ -427,7 +433,10 @@ func RunQuery(r QueryRun) (o *Outcome) {
 					q.Cancel()
 				}
 			}()
-			if o.ExecStart != 0 && o.ExecEnd == 0 {
+			omu.Lock()
+			running := o.ExecStart != 0 && o.ExecEnd == 0
+			omu.Unlock()
+			if running {
 				if r.Acct != nil {
 					r.Acct.NoteClientCancel()
 				}
@@ -445,7 +454,9 @@ func RunQuery(r QueryRun) (o *Outcome) {
 			}
 			defer func() {
 				if p := recover(); p != nil {
+					omu.Lock()
 					o.CancelPanic = fmt.Sprintf("%v | %s", p, trimStack(debug.Stack()))
+					omu.Unlock()
 				}
 			}()
 			if op.ClientClose {
@@ -457,7 +468,11 @@ func RunQuery(r QueryRun) (o *Outcome) {
 	} else {
 		close(clientDone)
 	}
+	afDone := make(chan struct{})
 	stopAF := context.AfterFunc(ctx, func() {
+		defer close(afDone)
+		omu.Lock()
+		defer omu.Unlock()
 		if o.CancelStep == 0 && o.ExecEnd == 0 {
 			o.CancelStep = step()
 			if o.CancelStep == 0 {
@@ -465,13 +480,19 @@ func RunQuery(r QueryRun) (o *Outcome) {
 			}
 		}
 	})
+	omu.Lock()
 	o.ExecStart = step()
+	omu.Unlock()
 	res := q.Exec(ctx)
+	omu.Lock()
 	o.ExecEnd = step()
-	o.CtxDoneAtEnd = ctx.Err() != nil
-	stopAF()
 	if o.ExecEnd == 0 {
 		o.ExecEnd = -1
+	}
+	omu.Unlock()
+	o.CtxDoneAtEnd = ctx.Err() != nil
+	if !stopAF() {
+		<-afDone // the callback has started: let it finish before anybody reads o
 	}
 	if r.Acct != nil {
 		o.Acct = r.Acct.Acct()
